@@ -195,6 +195,37 @@ def gsequ_rules(chk, cid, prog, p, cfgname):
                         '*%s must be max(smallest maximum, smlnum) / min(largest maximum, bignum): the scale factors are reciprocals of the clamped '
                         'maxima, so the ratio of the unclamped extremes (%s) is not min/max of the factors that are returned when an extreme lies '
                         'outside the safe range' % (nm, got), cfgname=cfgname)
+    # (1c) rcmin / rcmax serve the row pass and then the column pass: each pass that folds values into them starts from a fresh
+    # initialisation, otherwise the column ratio is the minimum / maximum over rows *and* columns
+    top = f.body.c
+    folds = {}      # var id -> [(index of the top-level statement, node)]
+    inits = {}
+    for i, st in enumerate(top):
+        for x in st.walk():
+            if x.k == 'Assign' and x.a['op'] == '=' and strip(x.c[0]).k == 'Ref':
+                vid = strip(x.c[0]).a.get('id')
+                mentions = any(y.k == 'Ref' and y.a.get('id') == vid for y in x.c[1].walk())
+                if mentions and st.k == 'For':
+                    folds.setdefault(vid, []).append((i, x))
+                elif not mentions and st.k != 'For':
+                    inits.setdefault(vid, []).append(i)
+    for vid, fl in sorted(folds.items()):
+        passes = sorted({i for (i, _) in fl})
+        if len(passes) < 2:
+            continue
+        nm = strip(fl[0][1].c[0]).a.get('name')
+        for k_, i in enumerate(passes):
+            n += 1
+            prev = passes[k_ - 1] if k_ else -1
+            okk = any(prev < j < i for j in inits.get(vid, []))
+            inst = '%s:%s-fresh-for-pass-%d' % (f.name, nm, k_ + 1)
+            if okk:
+                chk.ok(cid, inst, sample='%s initialised between the passes' % nm)
+            else:
+                node = [x for (j, x) in fl if j == i][0]
+                chk.violate(cid, inst, loc(f, node), f.name,
+                            '`%s` folds values into %s in a second pass without a fresh initialisation after the previous pass: the result is the extreme over both '
+                            'passes (row maxima and scaled column maxima), so the reported column ratio is not min(C)/max(C)' % (pretty(node)[:50], nm), cfgname=cfgname)
     # (2) info convention for empty rows / columns
     infoid = f.params[kinfo - 1][1]
     Aid = f.params[kA - 1][1]
